@@ -20,7 +20,7 @@ CLAIMED = {
  'C03': ('Coq proof of SymdelDB.lookup and LookupDB.lookup models (edit ball = breadth-first closure, proved exact), class SymdelDB regenerated from nn.py and proved exact in its three distance modes for any set iteration order, history invariance by induction; differential runs incl. database histories',
          'Theorems C03_* (coq/props/C03.v): two-collection symdel and the hash lookup return exactly {(q,r,d): d = lev(query q, ref r) <= k} once each, including q = r and d = 0; the BFS ball holds exactly the strings within k edits; any lookup history leaves later answers equal to a one-shot search.',
          COMMON_NOTE + 'rapidfuzz distances; LookupDB references over the amino-acid alphabet (its documented domain).', 'DESIGN.md section 4 C03'),
- 'C04': ('Coq proof: histogram pre-filter bound (sqdist <= 2k^2 for any bin map), binary64 radius sweep on the regenerated radius expression, kdtree and hash models exact, hence the three engines agree; differential runs of kdtree/hash_based',
+ 'C04': ('Coq proof: histogram pre-filter bound (sqdist <= 2k^2 for any bin map), binary64 radius sweep on the regenerated radius expression, kdtree and hash models exact, _generate_neighbors and class LookupDB regenerated from nn.py and proved equal to the model ball / lookup, hence the three engines agree; differential runs of kdtree/hash_based',
          'Theorems C04_* (coq/props/C04.v): lev <= k implies squared histogram distance <= 2k^2 for every letter->bin map; the kdtree model (ball query + exact filter) and the hash model return exactly the C01 set; engines are set-equal; the float64 radius expression regenerated from nn.py admits 2k^2 for every k in 1..4096 in both comparison forms (C04_radius, coq/props/C04r.v, PrimFloat sweep by vm_compute); the one-edit generator used by the hash ball is regenerated from distance.py and proved equal to the model (coq/props/C12g.v).',
          COMMON_NOTE + 'scipy KDTree.query_ball_point returns all points within the radius it is given (float64 radius sqrt(2)*k); rapidfuzz extract.', 'DESIGN.md section 4 C04'),
  'C06': ('Coq proof over the reals: multinomial factorial moments by induction on N, then field on the formulas regenerated from stats.py; exact-rational correspondence and exact enumeration of the expectation on the implementation',
